@@ -538,6 +538,15 @@ class Build(object):
         self.subs[fpr]['sigs'].append(self._rec(sig, True, flags=0))
         self.log.append(('revoke_sub', fpr[-8:]))
 
+    def third_sub(self, fpr, t):
+        # a signature on a subkey that the primary key did NOT issue: a subkey revocation made by the other key (what a designated revoker
+        # sends). It belongs to the subkey like any other signature read or attached there, and is exported with it
+        sk = self.sub_obj(fpr)
+        sig = self.other.revoke(sk, created=t)
+        sk |= sig
+        self.subs[fpr]['sigs'].append(self._rec(sig, False))
+        self.log.append(('third_sub', fpr[-8:]))
+
     def revoke_key(self, t):
         sig = self.unlocked(lambda: self.k.revoke(self.k, created=t))
         self.k |= sig
@@ -663,7 +672,7 @@ def shape_steps(desc):
     for i in range(ns):
         menu += [('rebind', i)]
     if ns:
-        menu += [('revoke_sub', ns - 1)]
+        menu += [('revoke_sub', ns - 1), ('third_sub', 0)]
     if timing == 'mixed' or deco == 'rand':
         menu += [('revoke_key',)]
     if deco == 'rand':
@@ -703,6 +712,8 @@ def build_shape(desc):
             b.rebind(subs[st[1]], dt(st[-1]), {KeyFlags.Authentication})
         elif op == 'revoke_sub':
             b.revoke_sub(subs[st[1]], dt(st[-1]))
+        elif op == 'third_sub':
+            b.third_sub(subs[st[1]], dt(st[-1]))
         elif op == 'revoke_key':
             b.revoke_key(dt(st[-1]))
     if desc[6] % 5 == 4:
